@@ -114,3 +114,11 @@ U("c06_cli_main_meta_queries", ["C06", "C11"], "h_cli_meta", ["C06/cli.c"], ["ma
   bounds={"mode": "stdin, -m or -e title", "flag options": "every combination (symbolic counts)", "unwind": 22},
   functions=["main"], callees={"mmd_string_metadata_keys, mmd_string_metavalue_for_key": "contract stubs recording their arguments (their contracts: c06 wrapper units, c11_metavalue_*)", "as c06_cli_main_stream": "argtable3, streams, library entry points by contract"},
   min_obligations=20, timeout=600, cost=10, assumptions=[NOFAIL, "argument parsing itself (argtable3) is trusted"])
+
+U("c06_cli_main_concat_two_files", ["C06"], "h_cli_concat2", ["C06/cli.c"], ["main.c"], plain=True, lib=("lib/ds_sink.c",), kind="bounded",
+  defines=["-DSINK_CAP=16"],
+  pre_instrument=["--generate-function-body", "^(?!__CPROVER_|malloc$|free$|calloc$|strcmp$|strlen$|strcpy$|strrchr$|memcpy$|verif_).*$", "--generate-function-body-options", "nondet-return"],
+  cbmc_flags=["--unwind", "22", "--unwinding-assertions", "--object-bits", "10"],
+  bounds={"mode": "two files of 3 symbolic bytes each, no -b, output to stdout", "flag options": "every combination (symbolic counts)", "unwind": 22},
+  functions=["main"], callees={"as c06_cli_main_batch": "argtable3, streams, library entry points by contract", "d_string_*": "executable specification lib/ds_sink.c (the concatenation is checked byte for byte)"},
+  min_obligations=20, timeout=600, cost=10, assumptions=[NOFAIL, "argument parsing itself (argtable3) is trusted"])
